@@ -18,6 +18,11 @@ VERIF = os.path.dirname(os.path.dirname(os.path.abspath(__file__)))
 IRDUMP = os.path.join(VERIF, 'bin', 'irdump')
 
 
+def tyname(s):
+    """'%"class.igris::ring"*' -> 'class.igris::ring'"""
+    return s.rstrip('*').lstrip('%').strip('"')
+
+
 class AnalysisBroken(Exception):
     """Raised when the analysis cannot be carried out (anchor vanished, tool
     failure, unsupported construct).  Mapped to exit code 2, never to a pass
@@ -525,7 +530,7 @@ class Module:
                 nm_eff = prefix + nm
             ty = f['ty']
             if ty['k'] == 'struct' and depth < 6:
-                sub = ty['s'].lstrip('%')
+                sub = tyname(ty['s'])
                 subprefix = (nm_eff + '.') if nm_eff else prefix
                 out.extend(self.flat_fields(sub, subprefix, base + f['off'], depth + 1))
             elif nm_eff is not None:
